@@ -19,6 +19,23 @@ CHECKS = {
              "version/security configuration x operation x sync/async, classifying every outcome. Exploration, not proof: 256^4080 inputs "
              "cannot be enumerated.",
         note=TB + " A clean ASan/Miri run is not memory safety for unreached paths."),
+    "C02": dict(
+        cat="exploration", ref="DESIGN.md section 4 C02",
+        tech="runtime monitoring: reference-model oracle (independent BER encoder -> expected Python object) over generated responses, end-to-end through the shipped .so and decode-only in rel/dbg/ASan builds",
+        text="An independent model draws names and values of every supported type at boundary and random points, encodes them with its own "
+             "BER encoder (short and long-form lengths) and the scripted agent serves them in v1/v2c/v3 (plain/auth/DES/AES) to get, get_many, "
+             "getnext and getbulk, sync and async; every delivered object is compared for exact equality and type. ~2x10^5 values decode-only "
+             "plus ~3x10^4 end-to-end per quick run.",
+        note=TB + " REALs are generated exactly representable so exact float comparison is sound; exotic ISO 6093 spellings are not generated."),
+    "C03": dict(
+        cat="exploration", ref="DESIGN.md section 4 C03",
+        tech="runtime monitoring: every datagram emitted during random multi-session API programs is strict-decoded by an independent decoder and compared field-by-field with a model of the call (history oracle at the agent boundary); Miri/ASan on pool contention",
+        text="Random programs of all API calls over 5-8 live sessions of different versions/credentials per process (plus 8 threads) with an "
+             "agent that replies, drops, sends large or stray datagrams, so pooled buffers are reused in every state; each of ~6x10^4 datagrams "
+             "per quick run must strict-decode (definite minimal lengths, minimal INTEGERs, nothing trailing) and match the model: version, "
+             "credentials, engine id/boots/time of the last accepted agent message, flags, PDU type, bulk parameters, id ranges, OIDs in order "
+             "bound to NULL, exactly one datagram per request. Buffer pool exercised under Miri (data races) and ASan.",
+        note=TB + " Histories are sampled, not exhausted."),
 }
 
 NOT_YET = "check not built yet in this session (work in progress; see DESIGN.md for the planned monitor)"
